@@ -1045,6 +1045,16 @@ pub fn run_alone_after<R>(k: u32, f: impl FnOnce() -> R) -> (R, u32) {
     (r, pts)
 }
 
+/// Is the calling virtual thread running with everybody else suspended?
+pub fn is_alone() -> bool {
+    let me = vid();
+    if me == u32::MAX as usize {
+        return false;
+    }
+    let g = lock(rt());
+    me < g.th.len() && (g.th[me].uninterruptible || g.th[me].alone_after.is_some())
+}
+
 /// Allocate a waker slot owned by the calling virtual thread.
 pub fn new_waker() -> u32 {
     let me = vid();
